@@ -1,4 +1,4 @@
-//@ unit scan_chardata_wf_w
+//@ unit scan_chardata_dg_w
 //@ props C02 C03 C01
 //@ kind W
 //@ def quick NIN=4
@@ -7,7 +7,7 @@
 //@ timeout quick=600 thorough=1800
 //@ entry h_scanCharData
 //@ note W: complete for every character sequence of length <= NIN without '&' (entity and character references are out of this unit's scope: scanEntityRef is not extractable)
-//@ note WFXMLScanner version; single entity only: the try/catch for EndOfEntityException and the ThrowEOEJanitor are removed by sub rules (the reader abstraction never crosses an entity boundary); sendCharData is a sink stub that accumulates the text; reader abstraction, emitError and buffers are trusted stubs (contracts/scanner_stubs.inc)
+//@ note DGXMLScanner version (the standalone-whitespace validity block at the end is cut by a sub rule); single entity only: the try/catch for EndOfEntityException and the ThrowEOEJanitor are removed by sub rules (the reader abstraction never crosses an entity boundary); sendCharData is a sink stub that accumulates the text; reader abstraction, emitError and buffers are trusted stubs (contracts/scanner_stubs.inc)
 #define VERIF_DEFINE_GHOSTS
 #include "verif_prelude.h"
 //@ include scanner_stubs.inc
@@ -17,8 +17,10 @@ static int SC_scanEntityRef(bool inAtt, XMLCh *a, XMLCh *b, bool *esc) { __CPROV
 struct { XMLCh a[NIN + 2]; } ACC; XMLSize_t ACCLEN;
 static void SC_sendCharData(void) { for (XMLSize_t k = 0; k < NIN + 1; k++) if (k < OUTLEN && ACCLEN < NIN + 1) ACC.a[ACCLEN++] = OUT.a[k]; if (OUTLEN) DOC_EVENTS++; OUTLEN = 0; }
 
-/*@extract src/xercesc/internal/WFXMLScanner.cpp WFXMLScanner::scanCharData
+/*@extract src/xercesc/internal/DGXMLScanner.cpp DGXMLScanner::scanCharData
 sub \bStates\s+curState => enum States curState
+sub if \(fValidate && fStandalone\)[\s\S]*(?=sendCharData\(toUse\);\s*\}\s*$) =>
+sub else\s*\{\s*if \(escaped && !fElemStack\.isEmpty\(\)\)\s*fElemStack\.setReferenceEscaped\(\);\s*\} =>
 sub ThrowEOEJanitor jan\(&fReaderMgr, true\); =>
 sub ThrowEOEJanitor jan\(&fReaderMgr, false\); =>
 sub \btry\s*\{ => {
@@ -34,5 +36,5 @@ sub XMLCh tmpBuf\[9\];\s*XMLString::binToText\s*\([^;]*\); =>
 sub emitError\(XMLErrs::InvalidCharacter, tmpBuf\) => SC_emitError(XMLErrs::InvalidCharacter)
 sub (?<!SC_)emitError\( => SC_emitError(
 @*/
-#define SC_CHARDATA_CALL WFXMLScanner_scanCharData
+#define SC_CHARDATA_CALL DGXMLScanner_scanCharData
 //@ include scan_chardata_harness.inc
